@@ -40,8 +40,18 @@
 //! // Tokens are automatically released when dropped (RAII)
 //! ```
 
+#[cfg(not(zipora_verif))]
 use std::sync::atomic::{AtomicU64, Ordering};
+#[cfg(zipora_verif)]
+use crate::verif::sync::atomic::AtomicU64;
+#[cfg(zipora_verif)]
+use std::sync::atomic::Ordering;
+#[cfg(not(zipora_verif))]
 use std::sync::{Arc, Mutex};
+#[cfg(zipora_verif)]
+use std::sync::Arc;
+#[cfg(zipora_verif)]
+use crate::verif::sync::Mutex;
 // Additional sync primitives (currently unused)
 // use std::sync::atomic::AtomicU8;
 // use std::sync::RwLock;
@@ -452,6 +462,8 @@ impl VersionManager {
             stats.total_reader_acquisition_time += start_time.elapsed();
         }
 
+        #[cfg(zipora_verif)]
+        crate::verif::mem::born(Arc::as_ptr(&self.state) as usize, "VersionState");
         Ok(ReaderToken::new(
             version,
             min_version,
@@ -528,6 +540,8 @@ impl VersionManager {
             stats.total_writer_acquisition_time += start_time.elapsed();
         }
 
+        #[cfg(zipora_verif)]
+        crate::verif::mem::born(Arc::as_ptr(&self.state) as usize, "VersionState");
         Ok(WriterToken::new(
             version,
             min_version,
@@ -618,6 +632,13 @@ impl VersionManager {
     }
 }
 
+#[cfg(zipora_verif)]
+impl Drop for VersionState {
+    fn drop(&mut self) {
+        crate::verif::mem::died(self as *const Self as usize, "VersionState");
+    }
+}
+
 /// Statistics for monitoring version manager performance.
 #[derive(Debug, Default, Clone)]
 pub struct VersionManagerStats {
@@ -693,6 +714,8 @@ impl std::fmt::Debug for TokenReleaseCallback {
 
 impl TokenReleaseCallback {
     fn release(&self, token_version: u64) {
+        #[cfg(zipora_verif)]
+        crate::verif::mem::touch(Arc::as_ptr(&self.state) as usize, "VersionState");
         match self.token_type {
             TokenType::Reader => self.state.release_reader_token(token_version),
             TokenType::Writer => self.state.release_writer_token(token_version),
